@@ -174,12 +174,31 @@ def class_state_digest():
         h.update(repr([(p.name, tuple(p.prod), p.prec) for p in ps._grammar.Productions]).encode())
         h.update(repr(sorted(type(lx).tokens)).encode())
         h.update(repr(type(lx)._master_re.pattern).encode())
-        h.update(repr(sorted((k, repr(v)[:200]) for k, v in vars(type(ps)).items()
+        h.update(repr(sorted((k, _stable(v)[:400]) for k, v in vars(type(ps)).items()
                              if not k.startswith('__') and not callable(v) and k not in ('_grammar', '_lrtable'))).encode())
     h.update(repr(sorted(ident_mod.get_reserved_words())).encode())
     h.update(sa_state_digest().encode())
-    h.update(repr(sorted((k, repr(v)[:300]) for k, v in vars(sr).items()
+    h.update(repr(sorted((k, _stable(v)[:400]) for k, v in vars(sr).items()
                          if isinstance(v, (dict, list, set, tuple, str, int)) and not k.startswith('__'))).encode())
+    return h.hexdigest()
+
+
+def portable_state_digest():
+    """the part of the class-level state whose digest does not depend on PYTHONHASHSEED (SLY numbers states and
+    productions by set iteration order, so the LR tables are compared only within one process): lexer token sets and
+    master regexes, reserved words, renderer module globals, SQLAlchemy dialect / preparer / compiler class attributes"""
+    from mindsdb_sql import get_lexer_parser
+    from mindsdb_sql.parser.ast.select import identifier as ident_mod
+    from mindsdb_sql.render import sqlalchemy_render as sr
+    h = hashlib.sha256()
+    for d in DIALECTS:
+        lx, ps = get_lexer_parser(d)
+        h.update(repr(sorted(type(lx).tokens)).encode())
+        h.update(repr(type(lx)._master_re.pattern).encode())
+    h.update(repr(sorted(ident_mod.get_reserved_words())).encode())
+    h.update(repr(sorted((k, _stable(v)[:400]) for k, v in vars(sr).items()
+                         if isinstance(v, (dict, list, set, tuple, str, int)) and not k.startswith('__'))).encode())
+    h.update(sa_state_digest().encode())
     return h.hexdigest()
 
 
@@ -261,6 +280,30 @@ def run_cold(jobs, hashseed):
     return json.loads(p.stdout.strip().split('\n')[-1])
 
 
+DIGEST_WORKER = r'''
+import sys
+sys.path.insert(0, %r); sys.path.insert(0, %r)
+from tools.props import c20
+print(c20.portable_state_digest())
+'''
+
+
+def pristine_digest():
+    """class-state digest of a process that has imported the library and made no call yet"""
+    p = subprocess.run([sys.executable, '-c', DIGEST_WORKER % (common.REPO, common.ROOT)], capture_output=True, text=True,
+                       env=dict(os.environ), timeout=600)
+    if p.returncode != 0:
+        raise RuntimeError('digest worker failed: ' + p.stderr[-500:])
+    return p.stdout.strip().split('\n')[-1]
+
+
+def isolated_results(jobs, hashseed, workers=12):
+    """each job as the ONLY call of its own fresh process (the reference 'nothing ran before')"""
+    from concurrent.futures import ThreadPoolExecutor
+    with ThreadPoolExecutor(workers) as ex:
+        return list(ex.map(lambda j: run_subprocess([list(j)], hashseed)[0], jobs))
+
+
 def run_subprocess(jobs, hashseed):
     env = dict(os.environ, PYTHONHASHSEED=str(hashseed))
     p = subprocess.run([sys.executable, '-c', WORKER % (common.REPO, common.ROOT)], input=json.dumps(jobs),
@@ -316,6 +359,18 @@ def run(chk):
                'class-level tables / module globals changed during a batch of calls')
     if before != after:
         fail('class-state-written', 'class-level or module-level state was modified by parse/plan/render calls')
+    # the same digest in a process that has made no call at all: also sees writes made before this function started
+    # (the extraction step of the check constructs renderers and parsers in this very process)
+    try:
+        pristine = pristine_digest()
+        after_p = portable_state_digest()
+        chk.oblige('assume:class-state-equals-pristine', 'assumption-check', pristine == after_p,
+                   'class-level state of this process differs from that of a process that has made no call')
+        if pristine != after_p:
+            fail('class-state-written:since-start', 'class-level or module-level state differs from a fresh process: '
+                 'some earlier call in this process modified it')
+    except Exception as e:
+        chk.oblige('assume:class-state-equals-pristine', 'assumption-check', False, str(e))
     # --- inputs are not changed in a way that alters later calls: catalog reuse across calls
     from mindsdb_sql import parse_sql
     from mindsdb_sql.planner import plan_query
@@ -422,6 +477,20 @@ def run(chk):
                         fail('hashseed', 'result depends on PYTHONHASHSEED', job=list(j), seed_a=seeds[0], seed_b=hs,
                              a=a[:300], b=b[:300])
         chk.oblige('assume:hashseed-subprocesses', 'assumption-check', True)
+        # --- isolated reference: a sample of jobs, each as the only call of a fresh process, against the same job
+        # after the history of this process and against the sequential subprocess
+        quoting_all = [j for j in uniq if j[0] in ('parse', 'render') and '`' in j[1]]
+        iso_jobs = rng.sample(quoting_all, min(len(quoting_all), 36 if not deep else 200)) + \
+            rng.sample(uniq, min(len(uniq), 12 if not deep else 100))
+        iso = isolated_results(iso_jobs, seeds[0])
+        refmap0 = dict(zip(uniq, ref))
+        for j, r in zip(iso_jobs, iso):
+            chk.count(('isolated', j))
+            for name, other in (('after the calls of this process', do_job(j)), ('in the sequential subprocess', refmap0[j])):
+                if norm_msg(r) != norm_msg(other):
+                    fail('history:vs-isolated', 'result differs from the same call made as the only call of a fresh process',
+                         job=list(j), isolated=r[:300], other=other[:300], where=name)
+        dist['isolated_calls'] = len(iso_jobs)
         # --- cold start under contention: first calls of a fresh process made by 8 threads at once
         refmap = dict(zip(uniq, ref))
         quoting = [j for j in uniq if j[0] in ('parse', 'render') and '`' in j[1]]
